@@ -37,7 +37,8 @@ def b1_runs(ids4, w, doubling=False):
     def four():
         if ids4 is None:
             return ('MC_Routing 4 sites: all 15625 meshes, src/dst fixed by symmetry, all include lists <= 2',
-                    tlc.run('MC_Routing', cfg_text=ru.mc_cfg(LinePer=2, TwinPer=1, PairPer=2, TriplePer=1, OverlapPer=1),
+                    tlc.run('MC_Routing', cfg_text=ru.mc_cfg(sanity=False, LinePer=2, TwinPer=1, PairPer=2, TriplePer=1,
+                                                             OverlapPer=1),
                             timeout=6000, tag='c11-mc4', workers=w))
         return (f'MC_Routing 4 sites: {len(ids4)} sampled meshes, all include lists <= 2',
                 tlc.run('MC_Routing', cfg_text=ru.mc_cfg(UseSample=True), workers=w,
